@@ -646,9 +646,9 @@ class Concatenator(Group):  # pylint: disable=too-many-public-methods
                 f"for the requested field {field}"
             )
 
-        if field == "property_groups" and isinstance(values, list):
+        if field == "property_groups" and (isinstance(values, list) or remove):
             field = "property_group_ids"
-            values = [as_str_if_uuid(val.uid).encode() for val in values]
+            values = [as_str_if_uuid(val.uid).encode() for val in values or []]
 
         alias = KEY_MAP.get(field, field)
 
